@@ -2,6 +2,8 @@
 import random
 from c01 import b32, edge_scalar, N, P
 LEVEL = "model_checking"
+GROUPS = ["ecdsa", "schnorr", "keys"]
+REPLAY_STATELESS = True
 MODULE = "C02_Schnorr.tla"
 TRACE = (MODULE, "C02_trace.cfg")
 REG = dict(category="model_checking",
